@@ -27,10 +27,13 @@
 EXTENDS Naturals, Sequences, FiniteSets, TLC
 
 CONSTANTS Shapes,     \* set of class shapes
-          MaxOps      \* bound on the number of operations after construction
+          MaxOps,     \* bound on the number of operations after construction
+          ShareOnReplace   \* deviation (a seeded change): replace() hands the ORIGINAL's set object to the copy
 
-VARIABLES shape, fs, lo, alive, hist
-vars == <<shape, fs, lo, alive, hist>>
+VARIABLES shape, fs, lo, alive, hist, orig
+vars == <<shape, fs, lo, alive, hist, orig>>
+\* orig: the instance replace() was last called on, which stays reachable by the caller: [has, fs, lo];
+\* replace() returns a NEW instance, so nothing done to the copy (nor replace itself) may change it
 \* fs: the tracked set when it is exactly determined; lo: a lower bound always valid
 \* (for the sandwich case fs is the UPPER bound and lo the lower one)
 
@@ -55,6 +58,7 @@ Tracked(s) == s.deco.sub \/ (s.hasSub /\ s.deco.base) \/ (~s.hasSub /\ s.deco.ba
 
 Init == /\ shape \in Shapes
         /\ fs = {} /\ lo = {} /\ alive = FALSE /\ hist = <<>>
+        /\ orig = [has |-> FALSE, fs |-> {}, lo |-> {}]
 
 Log(op) == hist' = Append(hist, op)
 
@@ -64,7 +68,7 @@ Construct(G) ==
   /\ ~alive /\ G \subseteq InitArgs(shape) /\ Required(shape) \subseteq G
   /\ IF Exact(shape) THEN fs' = AfterInit(shape, G) /\ lo' = fs'
      ELSE fs' = Stored(shape) /\ lo' = G \ InitVars(shape)
-  /\ alive' = TRUE /\ UNCHANGED shape
+  /\ alive' = TRUE /\ UNCHANGED <<shape, orig>>
   /\ Log([op |-> "construct", names |-> G])
 
 \* positional construction cls(v1, .., vk): the first k parameters of __init__ in signature order
@@ -75,29 +79,38 @@ ConstructPos(k) ==
   /\ ~alive /\ k \in 1..Len(InitSeq(shape)) /\ Required(shape) \subseteq G
   /\ IF Exact(shape) THEN fs' = AfterInit(shape, G) /\ lo' = fs'
      ELSE fs' = Stored(shape) /\ lo' = G \ InitVars(shape)
-  /\ alive' = TRUE /\ UNCHANGED shape
+  /\ alive' = TRUE /\ UNCHANGED <<shape, orig>>
   /\ Log([op |-> "construct_pos", names |-> G])
 
 Deser(K) ==
   /\ ~alive /\ K \subseteq InitArgs(shape) /\ Required(shape) \subseteq K
   /\ IF Exact(shape) THEN fs' = AfterInit(shape, K \cup Flat(shape)) /\ lo' = fs'
      ELSE fs' = Stored(shape) /\ lo' = (K \cup Flat(shape)) \ InitVars(shape)
-  /\ alive' = TRUE /\ UNCHANGED shape
+  /\ alive' = TRUE /\ UNCHANGED <<shape, orig>>
   /\ Log([op |-> "deserialize", names |-> K])
+
+\* operations on the current instance leave the original alone -- unless (deviation) both hold one set object
+OrigFollows(nfs, nlo) ==
+  IF ShareOnReplace /\ orig.has /\ "shared" \in DOMAIN orig
+  THEN orig' = [orig EXCEPT !.fs = nfs, !.lo = nlo] ELSE UNCHANGED orig
 
 SetAttr(a) ==
   /\ alive /\ Len(hist) <= MaxOps /\ a \in Stored(shape)
   /\ fs' = fs \cup {a} /\ lo' = lo \cup {a}
+  /\ OrigFollows(fs', lo')
   /\ UNCHANGED <<shape, alive>> /\ Log([op |-> "setattr", names |-> {a}])
 
 SetFields(F, ow) ==
   /\ alive /\ Len(hist) <= MaxOps /\ F \subseteq Stored(shape)
   /\ fs' = (IF ow THEN {} ELSE fs) \cup F /\ lo' = (IF ow THEN {} ELSE lo) \cup F
+  \* set_fields(overwrite=True) REBINDS the attribute to a new set: a shared set object is left behind
+  /\ IF ow THEN UNCHANGED orig ELSE OrigFollows(fs', lo')
   /\ UNCHANGED <<shape, alive>> /\ Log([op |-> IF ow THEN "set_fields_overwrite" ELSE "set_fields", names |-> F])
 
 Unset(F) ==
   /\ alive /\ Len(hist) <= MaxOps /\ F \subseteq Stored(shape) /\ F # {}
   /\ fs' = fs \ F /\ lo' = lo \ F
+  /\ OrigFollows(fs', lo')
   /\ UNCHANGED <<shape, alive>> /\ Log([op |-> "unset_fields", names |-> F])
 
 \* replace() builds a new instance through __init__ and then OVERWRITES its set with the
@@ -105,6 +118,10 @@ Unset(F) ==
 Replace(C) ==
   /\ alive /\ Len(hist) <= MaxOps /\ C \subseteq InitArgs(shape) /\ C # {}
   /\ fs' = fs \cup (C \ InitVars(shape)) /\ lo' = lo \cup (C \ InitVars(shape))
+  \* the instance it was called on keeps its own set (deviation: the copy received that very set object,
+  \* so the changed fields were added to the original's set as well)
+  /\ orig' = IF ShareOnReplace THEN [has |-> TRUE, fs |-> fs', lo |-> lo', shared |-> TRUE]
+             ELSE [has |-> TRUE, fs |-> fs, lo |-> lo]
   /\ UNCHANGED <<shape, alive>> /\ Log([op |-> "replace", names |-> C])
 
 Next == \/ \E G \in SUBSET Names(shape) : Construct(G) \/ Deser(G)
@@ -113,7 +130,7 @@ Next == \/ \E G \in SUBSET Names(shape) : Construct(G) \/ Deser(G)
         \/ \E F \in SUBSET Names(shape) : \E ow \in BOOLEAN : SetFields(F, ow)
         \/ \E F \in SUBSET Names(shape) : Unset(F) \/ Replace(F)
 Spec == Init /\ [][Next]_vars
-View == <<shape, fs, lo, alive>>
+View == <<shape, fs, lo, alive, orig>>
 
 ---------------------------------------------------------------------------
 \* what the observations must return in the current state
@@ -131,4 +148,7 @@ DeserLaw ==
       fs = (hist[1].names \ InitVars(shape)) \cup AlwaysSet(shape) \cup Flat(shape)   \* aggregates are always built
 \* exclude_unset never emits an untracked field, exclude_unset=False emits everything
 ExcludeUnsetSound == KeysUnset \subseteq KeysAll
+\* replace() returns a new instance: whatever happens next, the instance it was called on keeps the set it had
+\* (orig is only ever assigned by Replace, to the set of the instance replace was called on)
+OrigFrozen == [][orig.has => (orig' = orig \/ (orig'.fs = fs /\ orig'.lo = lo /\ Len(hist') = Len(hist) + 1 /\ hist'[Len(hist')].op = "replace"))]_vars
 =============================================================================
